@@ -94,6 +94,9 @@ def elementwise(f, *xs):
 
 # --------------------------------------------------------------------------- operators
 def _scalar_binop(it, op, a, b):
+    import pathlib
+    if isinstance(a, pathlib.PurePath) and isinstance(op, ast.Div) and isinstance(b, (str, pathlib.PurePath)):
+        return a / b
     a, b = norm(a), norm(b)
     if isinstance(a, str) or isinstance(b, str):
         if isinstance(op, ast.Add):
@@ -464,6 +467,9 @@ def call_builtin(it, name, args, kwargs):
             acc = binop(it, ast.Add(), acc, x)
         return acc
     if name in ("str", "repr"):
+        import pathlib
+        if args and isinstance(args[0], pathlib.PurePath):
+            return str(args[0])
         if args and isinstance(norm(args[0]), (int, str)) and not isinstance(args[0], bool):
             return str(norm(args[0]))
         return "<str>" if args else ""
